@@ -945,6 +945,41 @@ class _ScipyLinalgProxy:
         return f
 
 
+class _OptResult:
+    def __init__(self, x, fun):
+        self.x = x
+        self.fun = fun
+        self.success = True
+
+
+class _OptProxy:
+    """stands in for scipy.optimize.  ``minimize_scalar(method='bounded')`` is replaced by its contract stub: it
+    returns SOME point of the bounds (a fresh real) together with the objective evaluated there, so whatever is proved
+    holds for the point the real Brent search would return too; optimality itself is not modelled"""
+
+    def minimize_scalar(self, fun, bracket=None, bounds=None, method=None, **kw):
+        import z3
+        if bounds is None:
+            raise Unsupported('minimize_scalar without bounds')
+        lo, hi = float(bounds[0]), float(bounds[1])
+        w = fresh_real('optw', lo + C.rng.uniform(0.2, 0.8) * (hi - lo))
+        C.assume.append(z3.And(w.n >= R.lift(lo).t, w.n <= R.lift(hi).t))
+        f = fun(w)
+        f = real_np.asarray(f, dtype=object)
+        return _OptResult(w, f.flat[0] if f.size == 1 else f)
+
+    def __getattr__(self, name):
+        import scipy.optimize as real_opt
+        f = getattr(real_opt, name)
+        if callable(f) and not isinstance(f, type):
+            def g(*a, **k):
+                if _any_sym(a, k):
+                    raise Unsupported(f'scipy.optimize.{name} on symbolic data')
+                return f(*a, **k)
+            return g
+        return f
+
+
 class _StatsProxy:
     """stands in for the scipy.stats module"""
     def __init__(self):
@@ -997,7 +1032,9 @@ def install(extra_modules=()):
     import scipy as real_scipy
     import scipy.sparse as real_sparse
     import scipy.linalg as real_sl
+    import scipy.optimize as real_opt
     sl_proxy = _ScipyLinalgProxy()
+    opt_proxy = _OptProxy()
     import rsatoolbox.util.matrix as rmat
     real_pcs = rmat.pairwise_contrast_sparse
 
@@ -1020,6 +1057,8 @@ def install(extra_modules=()):
                 new = scipy_proxy.sparse
             elif gval is real_sl:
                 new = sl_proxy
+            elif gval is real_opt:
+                new = opt_proxy
             elif gval is real_pcs:
                 new = pcs_dense
             elif gval is real_sparse.csr_matrix or gval is real_sparse.coo_matrix and not name.endswith('util.matrix'):
